@@ -26,8 +26,14 @@ class Delivery(object):
         self.G = sorted(set(core.parse_t(s) for s in spec["grid"]))
         self.lat_us = int(spec.get("latency_us", 0))
         evs = []
+        # insertion order: events handed over as objects first (list order), then the rows loaded from
+        # tables with add_custom_events, class by class
+        direct = [k for k, es in enumerate(spec["events"]) if not es.get("via_frame")]
+        framed = sorted((k for k, es in enumerate(spec["events"]) if es.get("via_frame")),
+                        key=lambda k: (["EvA", "EvB", "EvC"].index(spec["events"][k]["cls"]), k))
+        rank = {k: r for r, k in enumerate(direct + framed)}
         for k, es in enumerate(spec["events"]):
-            evs.append((core.parse_t(es["t"]), k, es["id"], es))
+            evs.append((core.parse_t(es["t"]), rank[k], es["id"], es))
         base = len(evs)
         for j, (sym, exp) in enumerate(member_expiries or []):
             evs.append((exp, base + j, "disc:" + sym, {"type": "disc", "auto": True, "sym": sym, "t": core.iso(exp)}))
